@@ -1,17 +1,865 @@
-(* ReplProtoProofs.v — theorems about the replication protocol model (ReplProto.v). *)
-From KV Require Import Bytes Spec WalCodec ReplProto.
-From Coq Require Import Lia.
+(* ReplProtoProofs.v — theorems about the replication protocol model (ReplProto.v).
+
+   Structure of the log used by the proofs: the entries of a well-formed log are the
+   concatenation of non-empty groups numbered 1, 2, 3, ... (one group per wal.Append /
+   wal.AppendBatch); a response of the primary that is not cut inside a transaction is the
+   concatenation of a segment of these groups. *)
+From KV Require Import Bytes BytesProofs Spec WalCodec MemtableProofs ReplProto.
+From Coq Require Import Lia PeanoNat Arith.
 Open Scope N_scope.
 
-(* ---------- witnesses: histories after which a connected replica never converges ---------- *)
-Definition put1 (k v : N) : event := EWrite (WSingle OpPut [k] [v]).
-Definition goods (n : nat) : list event := repeat (ETick good) n.
+(* ---------- groups ---------- *)
+Definition group := list entry.
+Definition const_seq (s : N) (g : group) : Prop := Forall (fun e => eseq e = s) g.
 
-(* D18a: join, two writes, caught up; flush (rotation); two more writes *)
-Definition w_rotation : list event :=
-  [EStart; ETick good; put1 97 1; put1 98 2] ++ goods 6 ++ [EFlush; put1 99 3; put1 100 4].
+Fixpoint gwf (s : N) (gs : list group) : Prop :=
+  match gs with
+  | [] => True
+  | g :: r => g <> [] /\ const_seq s g /\ gwf (s + 1) r
+  end.
 
-Example w_rotation_before_flush_converged :
-  let s := run ([EStart; ETick good; put1 97 1; put1 98 2] ++ goods 6) sys_init in
-  views_agree (fst s) (snd s) = true.
-Proof. vm_compute. reflexivity. Qed.
+Definition nlen {A} (l : list A) : N := N.of_nat (length l).
+
+Lemma gwf_app : forall x y s, gwf s (x ++ y) <-> gwf s x /\ gwf (s + nlen x) y.
+Proof.
+  induction x as [|g x IH]; intros y s; cbn [app gwf length].
+  - unfold nlen. cbn. rewrite N.add_0_r. tauto.
+  - rewrite IH. unfold nlen. cbn [length].
+    replace (s + 1 + N.of_nat (length x)) with (s + N.of_nat (S (length x))) by lia. tauto.
+Qed.
+
+Lemma gwf_firstn : forall n gs s, gwf s gs -> gwf s (firstn n gs).
+Proof.
+  intros n gs s H. rewrite <- (firstn_skipn n gs) in H. apply gwf_app in H. tauto.
+Qed.
+
+Lemma gwf_skipn : forall n gs s, gwf s gs -> gwf (s + nlen (firstn n gs)) (skipn n gs).
+Proof.
+  intros n gs s H. rewrite <- (firstn_skipn n gs) in H. apply gwf_app in H. tauto.
+Qed.
+
+Lemma const_seq_app : forall s a b, const_seq s (a ++ b) <-> const_seq s a /\ const_seq s b.
+Proof. intros. unfold const_seq. apply Forall_app. Qed.
+
+(* every entry of groups numbered from s on carries a number >= s, < s + count *)
+Lemma gwf_bounds : forall gs s e, gwf s gs -> In e (concat gs) -> s <= eseq e < s + nlen gs.
+Proof.
+  induction gs as [|g gs IH]; intros s e W Hin; cbn in Hin; [contradiction|].
+  destruct W as (_ & C & W). apply in_app_or in Hin. unfold nlen. cbn [length].
+  destruct Hin as [Hin|Hin].
+  - unfold const_seq in C. rewrite Forall_forall in C. rewrite (C _ Hin). lia.
+  - specialize (IH _ _ W Hin). unfold nlen in IH. lia.
+Qed.
+
+(* ---------- the applier on whole groups ---------- *)
+Lemma entry_eqb_refl : forall e, entry_eqb e e = true.
+Proof.
+  intros e. unfold entry_eqb, beqb. rewrite !N.eqb_refl, !beq_refl. reflexivity.
+Qed.
+
+Lemma contiguous_walk : forall s X Y, const_seq s X -> contiguous s (X ++ Y) = contiguous s Y.
+Proof.
+  induction X as [|x X IH]; intros Y C; [reflexivity|].
+  pose proof (Forall_inv C) as Hx; pose proof (Forall_inv_tail C) as CX; cbv beta in Hx. cbn [app contiguous]. rewrite Hx, N.eqb_refl. cbn [orb andb].
+  apply IH. exact CX.
+Qed.
+
+Lemma contiguous_groups : forall ds s X, const_seq s X -> gwf (s + 1) ds ->
+  contiguous s (X ++ concat ds) = true.
+Proof.
+  induction ds as [|d ds IH]; intros s X C W.
+  - cbn [concat]. rewrite contiguous_walk by exact C. reflexivity.
+  - cbn [concat]. rewrite contiguous_walk by exact C.
+    destruct W as (Hne & Cd & W). destruct d as [|d0 d']; [congruence|].
+    inversion Cd as [|? ? H0 Cd']; subst. cbn [app contiguous]. rewrite H0.
+    replace (s + 1 =? s) with false by (symmetry; apply N.eqb_neq; lia).
+    rewrite N.eqb_refl. cbn [orb andb]. apply IH; assumption.
+Qed.
+
+Lemma drop_below_lt : forall g X Y, Forall (fun e => eseq e < g) X ->
+  drop_below g (X ++ Y) = drop_below g Y.
+Proof.
+  induction X as [|x X IH]; intros Y F; [reflexivity|].
+  pose proof (Forall_inv F) as Hx; pose proof (Forall_inv_tail F) as FX; cbv beta in Hx. cbn [app drop_below].
+  apply N.ltb_lt in Hx. rewrite Hx. apply IH. exact FX.
+Qed.
+
+Lemma drop_below_ge : forall g Y, (forall y, hd_error Y = Some y -> g <= eseq y) -> drop_below g Y = Y.
+Proof.
+  intros g [|y Y] H; [reflexivity|]. cbn [drop_below].
+  specialize (H y eq_refl). replace (eseq y <? g) with false; [reflexivity|].
+  symmetry. apply N.ltb_ge. exact H.
+Qed.
+
+Lemma groups_lt : forall gs s g, gwf s gs -> s + nlen gs <= g -> Forall (fun e => eseq e < g) (concat gs).
+Proof.
+  intros gs s g W L. apply Forall_forall. intros e Hin.
+  pose proof (gwf_bounds _ _ _ W Hin). lia.
+Qed.
+
+Lemma hd_groups : forall gs s y, gwf s gs -> hd_error (concat gs) = Some y -> eseq y = s.
+Proof.
+  intros [|g gs] s y W H; cbn in H; [discriminate|].
+  destruct W as (Hne & C & _). destruct g as [|g0 g']; [congruence|].
+  cbn in H. inversion H; subst. exact (Forall_inv C).
+Qed.
+
+Lemma run_len_const : forall g X Y, const_seq g X ->
+  (forall y, hd_error Y = Some y -> eseq y <> g) -> run_len g (X ++ Y) = length X.
+Proof.
+  induction X as [|x X IH]; intros Y C H.
+  - destruct Y as [|y Y]; [reflexivity|]. cbn [app run_len length].
+    specialize (H y eq_refl). apply N.eqb_neq in H. rewrite H. reflexivity.
+  - pose proof (Forall_inv C) as Hx; pose proof (Forall_inv_tail C) as CX; cbv beta in Hx. cbn [app run_len length]. rewrite Hx, N.eqb_refl.
+    f_equal. apply IH; assumption.
+Qed.
+
+Lemma run_len_none : forall g Y, (forall y, hd_error Y = Some y -> eseq y <> g) -> run_len g Y = O.
+Proof.
+  intros g Y H. apply (run_len_const g [] Y); [constructor|exact H].
+Qed.
+
+Lemma prefix_eqb_self : forall X Y, prefix_eqb (length X) (X ++ Y) X = true.
+Proof.
+  induction X as [|x X IH]; intros Y; [reflexivity|].
+  cbn [length app prefix_eqb]. rewrite entry_eqb_refl, IH. reflexivity.
+Qed.
+
+Lemma apply_rest_same : forall X g ga st, const_seq g X ->
+  apply_rest g ga st X = (g, ga ++ X, st ++ X).
+Proof.
+  induction X as [|x X IH]; intros g ga st C; cbn [apply_rest].
+  - rewrite !app_nil_r. reflexivity.
+  - pose proof (Forall_inv C) as Hx; pose proof (Forall_inv_tail C) as CX; cbv beta in Hx. rewrite Hx, N.eqb_refl. rewrite IH by exact CX.
+    rewrite <- !app_assoc. reflexivity.
+Qed.
+
+Lemma apply_rest_const : forall X s g ga st, const_seq s X -> X <> [] ->
+  apply_rest g ga st X = (s, (if g =? s then ga else []) ++ X, st ++ X).
+Proof.
+  intros [|x X] s g ga st C Hne; [congruence|].
+  pose proof (Forall_inv C) as Hx; pose proof (Forall_inv_tail C) as CX; cbv beta in Hx. destruct (N.eqb_spec g s) as [E|NE].
+  - rewrite E. apply apply_rest_same. exact C.
+  - cbn [apply_rest]. rewrite Hx. apply N.eqb_neq in NE. rewrite N.eqb_sym in NE. rewrite NE.
+    rewrite apply_rest_same by exact CX. rewrite <- app_assoc. reflexivity.
+Qed.
+
+Lemma apply_rest_app : forall X Y g ga st,
+  apply_rest g ga st (X ++ Y) =
+  match apply_rest g ga st X with (g', ga', st') => apply_rest g' ga' st' Y end.
+Proof.
+  induction X as [|x X IH]; intros Y g ga st; cbn [app apply_rest]; [reflexivity|].
+  destruct (eseq x =? g); apply IH.
+Qed.
+
+Lemma apply_rest_groups : forall ds a g ga st, gwf a ds -> ds <> [] ->
+  (g < a \/ (g = a /\ ga = [])) ->
+  apply_rest g ga st (concat ds) = (a + nlen ds - 1, last ds [], st ++ concat ds).
+Proof.
+  induction ds as [|d ds IH]; intros a g ga st W Hne Hg; [congruence|].
+  destruct W as (Hd & Cd & W). cbn [concat]. rewrite apply_rest_app.
+  rewrite (apply_rest_const d a) by assumption.
+  assert (E : (if g =? a then ga else []) ++ d = d).
+  { destruct Hg as [L|[-> ->]].
+    - replace (g =? a) with false by (symmetry; apply N.eqb_neq; lia). reflexivity.
+    - rewrite N.eqb_refl. reflexivity. }
+  rewrite E. destruct ds as [|d2 ds'].
+  - cbn [concat apply_rest last]. unfold nlen. cbn [length]. rewrite app_nil_r.
+    f_equal. f_equal. lia.
+  - rewrite (IH (a + 1)); [|exact W|discriminate|left; lia].
+    unfold nlen. cbn [length]. rewrite <- app_assoc. cbn [last].
+    f_equal. f_equal. lia.
+Qed.
+
+Lemma last_in : forall (l : list entry) d, l <> [] -> In (last l d) l.
+Proof.
+  induction l as [|x l IH]; intros d H; [congruence|].
+  destruct l as [|y l']; [left; reflexivity|]. right. apply (IH d). discriminate.
+Qed.
+
+Lemma last_app_ne : forall (a b : list entry) d, b <> [] -> last (a ++ b) d = last b d.
+Proof.
+  induction a as [|x a IH]; intros b d H; [reflexivity|].
+  cbn [app]. destruct (a ++ b) eqn:E.
+  - destruct a; destruct b; cbn in E; congruence.
+  - rewrite <- E. cbn [last]. rewrite E. rewrite <- E. apply IH. exact H.
+Qed.
+
+Lemma last_seq_groups : forall ds a, gwf a ds -> ds <> [] -> last_seq (concat ds) = a + nlen ds - 1.
+Proof.
+  induction ds as [|d ds IH]; intros a W Hne; [congruence|].
+  destruct W as (Hd & Cd & W). destruct ds as [|d2 ds'].
+  - cbn [concat]. rewrite app_nil_r. unfold last_seq, nlen. cbn [length].
+    destruct d as [|d0 d']; [congruence|].
+    assert (In (last (d0 :: d') (mkW 0 0 [] [])) (d0 :: d')) by (apply last_in; discriminate).
+    unfold const_seq in Cd. rewrite Forall_forall in Cd. rewrite (Cd _ H). lia.
+  - cbn [concat]. unfold last_seq.
+    assert (NE : concat (d2 :: ds') <> []).
+    { destruct W as (Hd2 & _). cbn [concat]. destruct d2; [congruence|discriminate]. }
+    rewrite last_app_ne by exact NE.
+    change (last_seq (concat (d2 :: ds')) = a + nlen (d :: d2 :: ds') - 1).
+    rewrite (IH (a + 1)); [|exact W|discriminate]. unfold nlen. cbn [length]. lia.
+Qed.
+
+(* ---------- ApplyEntries on a response made of whole groups ---------- *)
+(* the applier's bookkeeping agrees with the log: either nothing is recorded for the next
+   number, or the whole group of the previous number is *)
+Definition cons_applier (r : rstate) (a : N) (old : list group) : Prop :=
+  (r_gseq r = r_exp r /\ r_gapp r = []) \/
+  (r_gseq r + 1 = r_exp r /\ r_gapp r <> [] /\ const_seq (r_gseq r) (r_gapp r) /\
+   (a + nlen old = r_exp r -> old <> [] -> exists old', old = old' ++ [r_gapp r])).
+
+Definition skipped (r : rstate) (es : list entry) : list entry :=
+  let es1 := drop_below (r_gseq r) es in
+  let n := Nat.min (run_len (r_gseq r) es1) (length (r_gapp r)) in
+  if negb (Nat.eqb n 0) && prefix_eqb n es1 (r_gapp r) then skipn n es1 else es1.
+
+Lemma concat_app2 : forall (a b : list group), concat (a ++ b) = concat a ++ concat b.
+Proof. intros. apply concat_app. Qed.
+
+Lemma hd_ne_groups : forall new e g, gwf e new -> g < e ->
+  forall y, hd_error (concat new) = Some y -> eseq y <> g.
+Proof.
+  intros new e g W L y H. rewrite (hd_groups _ _ _ W H). lia.
+Qed.
+
+Lemma skipped_groups : forall r a old new,
+  gwf a old -> a + nlen old <= r_exp r -> gwf (r_exp r) new ->
+  (new <> [] -> a + nlen old = r_exp r) ->
+  cons_applier r a old ->
+  skipped r (concat (old ++ new)) = concat new.
+Proof.
+  intros r a old new Wo Lo Wn Hn C. unfold skipped. rewrite concat_app2.
+  destruct C as [[G GA]|(G & GA & CG & HL)].
+  - (* nothing recorded for the next number *)
+    rewrite G, GA. rewrite drop_below_lt by (eapply groups_lt; eauto).
+    rewrite drop_below_ge.
+    + cbn [length]. rewrite Nat.min_0_r. reflexivity.
+    + intros y Hy. rewrite (hd_groups _ _ _ Wn Hy). lia.
+  - set (g := r_gseq r) in *. assert (Eg : r_exp r = g + 1) by lia.
+    destruct (N.eq_dec (a + nlen old) (r_exp r)) as [E|NE].
+    + destruct old as [|o0 old0].
+      * (* the response starts at the next number *)
+        cbn [concat app]. rewrite drop_below_ge.
+        -- rewrite run_len_none by (eapply hd_ne_groups; eauto; lia). reflexivity.
+        -- intros y Hy. rewrite (hd_groups _ _ _ Wn Hy). lia.
+      * destruct (HL E) as [old' Eo]; [discriminate|]. rewrite Eo in *.
+        rewrite concat_app2. cbn [concat]. rewrite app_nil_r. rewrite <- app_assoc.
+        apply gwf_app in Wo. destruct Wo as [Wo' _].
+        assert (Lg : a + nlen old' <= g).
+        { unfold nlen in *. rewrite app_length in E. cbn [length] in E. lia. }
+        rewrite drop_below_lt by (eapply groups_lt; eauto).
+        rewrite drop_below_ge.
+        -- rewrite (run_len_const g (r_gapp r) (concat new)); [|exact CG|eapply hd_ne_groups; eauto; lia].
+           rewrite Nat.min_id.
+           assert (Hl : Nat.eqb (length (r_gapp r)) 0 = false).
+           { destruct (r_gapp r); [congruence|reflexivity]. }
+           rewrite Hl, prefix_eqb_self. cbn [negb andb].
+           rewrite skipn_app, skipn_all, Nat.sub_diag. reflexivity.
+        -- intros y Hy. destruct (r_gapp r) as [|g0 ga'] eqn:Eg0; [congruence|].
+           cbn in Hy. inversion Hy; subst y. rewrite (Forall_inv CG). lia.
+    + (* everything in the response is older than the recorded group *)
+      assert (new = []) by (destruct new; [reflexivity|exfalso; apply NE, Hn; discriminate]).
+      subst new. cbn [concat]. rewrite app_nil_r.
+      rewrite <- (app_nil_r (concat old)).
+      rewrite drop_below_lt by (eapply groups_lt; eauto; lia). reflexivity.
+Qed.
+
+Lemma groups_cons : forall ds a, gwf a ds -> ds <> [] ->
+  exists e0 tl, concat ds = e0 :: tl /\ eseq e0 = a /\ contiguous a tl = true.
+Proof.
+  intros [|d ds] a W Hne; [congruence|]. destruct W as (Hd & Cd & W).
+  destruct d as [|e0 d']; [congruence|]. exists e0, (d' ++ concat ds). cbn [concat app].
+  split; [reflexivity|]. split; [exact (Forall_inv Cd)|].
+  apply contiguous_groups; [exact (Forall_inv_tail Cd)|exact W].
+Qed.
+
+Lemma apply_entries_gap : forall r ds a, gwf a ds -> ds <> [] -> r_exp r < a ->
+  apply_entries r (concat ds) = AGap.
+Proof.
+  intros r ds a W Hne L. destruct (groups_cons _ _ W Hne) as (e0 & tl & E & S0 & _).
+  rewrite E. cbn [apply_entries]. rewrite S0. apply N.ltb_lt in L. rewrite L. reflexivity.
+Qed.
+
+Definition applied_state (r : rstate) (new : list group) : rstate :=
+  mkR (r_mode r) (r_link r) (r_start r) (r_inbox r) (r_exp r + nlen new)
+      (match new with [] => r_gseq r | _ => r_exp r + nlen new - 1 end)
+      (match new with [] => r_gapp r | _ => last new [] end)
+      (r_store r ++ concat new).
+
+Lemma apply_entries_groups : forall r a old new,
+  old ++ new <> [] -> 1 <= r_exp r ->
+  gwf a old -> a + nlen old <= r_exp r -> gwf (r_exp r) new ->
+  (new <> [] -> a + nlen old = r_exp r) ->
+  cons_applier r a old ->
+  apply_entries r (concat (old ++ new)) = AOk (applied_state r new).
+Proof.
+  intros r a old new Hne He Wo Lo Wn Hn C.
+  assert (W : gwf a (old ++ new)).
+  { apply gwf_app. split; [exact Wo|]. destruct new; [exact I|]. rewrite Hn by discriminate. exact Wn. }
+  pose proof (skipped_groups r a old new Wo Lo Wn Hn C) as SK.
+  pose proof (last_seq_groups _ _ W Hne) as LS.
+  destruct (groups_cons _ _ W Hne) as (e0 & tl & E & S0 & CT).
+  unfold skipped in SK. rewrite E in SK, LS. rewrite E. cbn [apply_entries].
+  rewrite S0. replace (r_exp r <? a) with false by (symmetry; apply N.ltb_ge; unfold nlen in *; lia).
+  rewrite CT. cbn [negb]. rewrite SK. rewrite LS.
+  assert (NL : nlen (old ++ new) = nlen old + nlen new).
+  { unfold nlen. rewrite app_length. lia. }
+  destruct new as [|n0 new'].
+  - cbn [concat apply_rest]. unfold applied_state. cbn [concat].
+    assert (1 <= nlen old).
+    { destruct old; [cbn in Hne; congruence|]. unfold nlen. cbn [length]. lia. }
+    rewrite NL. unfold nlen in *. cbn [length] in *.
+    match goal with |- context [?x <? ?y] => destruct (N.ltb_spec x y) as [L1|L1] end; [exfalso; lia|].
+    rewrite app_nil_r. f_equal. f_equal. lia.
+  - assert (Ea : a + nlen old = r_exp r) by (apply Hn; discriminate).
+    rewrite (apply_rest_groups (n0 :: new') (r_exp r)); [|exact Wn|discriminate|].
+    + unfold applied_state. rewrite NL. unfold nlen in *. cbn [length] in *.
+      match goal with |- context [?x <? ?y] => destruct (N.ltb_spec x y) as [L1|L1] end; [|exfalso; lia].
+      f_equal. f_equal; lia.
+    + destruct C as [[G GA]|(G & _)]; [right; split; assumption|left; lia].
+Qed.
+
+(* ---------- segments of the group list ---------- *)
+Definition seg (i n : nat) (gs : list group) : list group := firstn n (skipn i gs).
+
+Lemma seg_length : forall i n gs, (i + n <= length gs)%nat -> length (seg i n gs) = n.
+Proof. intros. unfold seg. rewrite firstn_length, skipn_length. lia. Qed.
+
+Lemma seg_split : forall i n k gs, (k <= n)%nat ->
+  seg i n gs = seg i k gs ++ seg (i + k) (n - k) gs.
+Proof.
+  intros i n k gs H. unfold seg. rewrite skipn_add.
+  generalize (skipn i gs). intros l.
+  rewrite <- (firstn_skipn k (firstn n l)) at 1.
+  rewrite firstn_firstn, Nat.min_l by exact H. f_equal.
+  rewrite skipn_firstn_comm. reflexivity.
+Qed.
+
+Lemma firstn_seg : forall i m gs, firstn i gs ++ seg i m gs = firstn (i + m) gs.
+Proof.
+  intros i m gs. unfold seg. revert gs. induction i as [|i IH]; intros gs; [reflexivity|].
+  destruct gs as [|g gs]; [rewrite skipn_nil, !firstn_nil; reflexivity|].
+  cbn [firstn skipn Nat.add app]. f_equal. apply IH.
+Qed.
+
+Lemma gwf_seg : forall i n gs, gwf 1 gs -> (i <= length gs)%nat -> gwf (1 + N.of_nat i) (seg i n gs).
+Proof.
+  intros i n gs W L. unfold seg. apply gwf_firstn.
+  pose proof (gwf_skipn i gs 1 W) as H. unfold nlen in H.
+  rewrite firstn_length, Nat.min_l in H by exact L. exact H.
+Qed.
+
+Lemma nth_skipn' : forall (l : list group) i k, nth k (skipn i l) [] = nth (i + k) l [].
+Proof.
+  induction l as [|x l IH]; intros i k.
+  - rewrite skipn_nil. destruct k, i; reflexivity.
+  - destruct i as [|i]; [reflexivity|]. cbn [skipn Nat.add nth]. apply IH.
+Qed.
+
+Lemma seg_last : forall i n gs, (1 <= n)%nat -> (i + n <= length gs)%nat ->
+  last (seg i n gs) [] = nth (i + n - 1) gs [].
+Proof.
+  intros i n gs Hn L. unfold seg.
+  assert (E : firstn n (skipn i gs) = firstn (n - 1) (skipn i gs) ++ [nth (n - 1) (skipn i gs) []]).
+  { generalize (skipn i gs) (skipn_length i gs). intros l Hl.
+    assert (Ln : (n <= length l)%nat) by lia. clear Hl L.
+    revert l Ln. induction n as [|n IH]; intros l Ln; [lia|].
+    destruct l as [|x l]; [cbn in Ln; lia|]. destruct n as [|n'].
+    - reflexivity.
+    - cbn [firstn]. replace (S (S n') - 1)%nat with (S n') by lia. cbn [firstn nth app].
+      f_equal. cbn [length] in Ln. specialize (IH (ltac:(lia)) l (ltac:(lia))).
+      replace (S n' - 1)%nat with n' in IH by lia. exact IH. }
+  rewrite E, last_last. rewrite nth_skipn'. f_equal. lia.
+Qed.
+
+(* ---------- fetch returns whole groups when no cut falls inside a transaction ---------- *)
+Definition cut_cond (k : nat) (X : list entry) : Prop :=
+  match nth_error X (k - 1), nth_error X k with
+  | Some x, Some y => eseq x <> eseq y
+  | _, _ => True
+  end.
+
+Lemma filter_all_id : forall (f : entry -> bool) l, (forall e, In e l -> f e = true) -> filter f l = l.
+Proof.
+  intros f l. induction l as [|x l IH]; intros H; [reflexivity|]. cbn [filter].
+  rewrite (H x (or_introl eq_refl)). f_equal. apply IH. intros e He. apply H. right. exact He.
+Qed.
+
+Lemma from_seq_all : forall gs s from, gwf s gs -> from <= s -> from_seq from (concat gs) = concat gs.
+Proof.
+  intros gs s from W L. unfold from_seq. apply filter_all_id.
+  intros e Hin. pose proof (gwf_bounds _ _ _ W Hin). apply N.leb_le. lia.
+Qed.
+
+Lemma from_seq_groups : forall gs s from, gwf s gs -> s <= from ->
+  from_seq from (concat gs) = concat (skipn (N.to_nat (from - s)) gs).
+Proof.
+  induction gs as [|g gs IH]; intros s from W L.
+  - rewrite skipn_nil. reflexivity.
+  - destruct (N.eq_dec s from) as [E|NE].
+    + subst. rewrite N.sub_diag. cbn [N.to_nat skipn]. eapply from_seq_all; [exact W|lia].
+    + destruct W as (Hg & Cg & W). cbn [concat]. unfold from_seq. rewrite filter_app.
+      replace (filter (fun e => from <=? eseq e) g) with (@nil entry).
+      * cbn [app]. fold (from_seq from (concat gs)). rewrite (IH (s + 1)) by (assumption || lia).
+        replace (N.to_nat (from - s)) with (S (N.to_nat (from - (s + 1)))) by lia. reflexivity.
+      * symmetry. unfold const_seq in Cg. rewrite Forall_forall in Cg. clear Hg.
+        induction g as [|x g IHg]; [reflexivity|]. cbn [filter].
+        rewrite (Cg x (or_introl eq_refl)).
+        replace (from <=? s) with false by (symmetry; apply N.leb_gt; lia).
+        apply IHg. intros y Hy. apply Cg. right. exact Hy.
+Qed.
+
+Lemma firstn_groups : forall gs s k, gwf s gs -> (0 < k)%nat -> cut_cond k (concat gs) -> gs <> [] ->
+  exists n, (1 <= n <= length gs)%nat /\ firstn k (concat gs) = concat (firstn n gs).
+Proof.
+  induction gs as [|g gs IH]; intros s k W Hk HC Hne; [congruence|].
+  destruct W as (Hg & Cg & W). cbn [concat] in *.
+  destruct (Nat.lt_ge_cases k (length g)) as [Lt|Ge].
+  - exfalso. unfold cut_cond in HC.
+    rewrite !nth_error_app1 in HC by lia.
+    destruct (nth_error g (k - 1)) as [x|] eqn:E1; [|apply nth_error_None in E1; lia].
+    destruct (nth_error g k) as [y|] eqn:E2; [|apply nth_error_None in E2; lia].
+    apply nth_error_In in E1, E2. unfold const_seq in Cg. rewrite Forall_forall in Cg.
+    apply HC. rewrite (Cg _ E1), (Cg _ E2). reflexivity.
+  - rewrite firstn_app. rewrite (firstn_all2 g) by exact Ge.
+    destruct (Nat.eq_dec (k - length g) 0) as [Z|NZ].
+    + rewrite Z. cbn [firstn]. exists 1%nat. cbn [length firstn concat]. split; [lia|reflexivity].
+    + destruct gs as [|g2 gs'].
+      * cbn [concat]. rewrite firstn_nil. exists 1%nat. cbn [length firstn concat]. split; [lia|reflexivity].
+      * destruct (IH (s + 1) (k - length g)%nat W) as (n & Hn & En); [lia| |discriminate|].
+        -- unfold cut_cond in *.
+           assert (Lg : (1 <= length g)%nat) by (destruct g; [congruence|cbn; lia]).
+           rewrite !nth_error_app2 in HC by lia.
+           replace (k - 1 - length g)%nat with (k - length g - 1)%nat in HC by lia. exact HC.
+        -- exists (S n). cbn [length firstn concat] in *. split; [lia|]. rewrite En. reflexivity.
+Qed.
+
+Lemma seqs_upto_in : forall n s, 1 <= s <= N.of_nat n -> In s (seqs_upto n).
+Proof.
+  induction n as [|n IH]; intros s H; [lia|]. cbn [seqs_upto]. apply in_or_app.
+  destruct (N.eq_dec s (N.of_nat (S n))) as [E|NE]; [right; left; symmetry; exact E|].
+  left. apply IH. lia.
+Qed.
+
+Lemma cut_ok_cond : forall X, cut_ok X = true -> cut_cond MaxFetch X.
+Proof.
+  intros X H. unfold cut_ok, cut_cond in *.
+  destruct (nth_error X (MaxFetch - 1)); [|exact I]. destruct (nth_error X MaxFetch); [|exact I].
+  apply negb_true_iff, N.eqb_neq in H. exact H.
+Qed.
+
+(* the primary's log as groups *)
+Record pwf (p : pstate) (gs : list group) : Prop := mkPwf {
+  pw_log : p_log p = concat gs;
+  pw_gwf : gwf 1 gs;
+  pw_next : p_next p = nlen gs + 1;
+  pw_live : p_live p = true;
+  pw_obs : p_obs_next p = p_next p
+}.
+
+Lemma cur_live : forall p gs, pwf p gs -> cur p = nlen gs.
+Proof. intros p gs W. unfold cur. rewrite (pw_obs _ _ W), (pw_next _ _ W). lia. Qed.
+
+Lemma last_seq_log : forall gs, gwf 1 gs -> last_seq (concat gs) = nlen gs.
+Proof.
+  intros [|g gs] W; [reflexivity|]. rewrite (last_seq_groups _ 1 W) by discriminate. lia.
+Qed.
+
+(* no response cut inside a transaction, for every start number (group-level form) *)
+Definition gcuts (gs : list group) : Prop :=
+  forall i, (i < length gs)%nat -> cut_cond MaxFetch (concat (skipn i gs)).
+
+Lemma cuts_ok_gcuts : forall gs, gwf 1 gs -> cuts_ok (concat gs) = true -> gcuts gs.
+Proof.
+  intros gs W H i Hi. unfold cuts_ok in H. rewrite forallb_forall in H.
+  rewrite (last_seq_log _ W) in H. unfold nlen in H. rewrite Nat2N.id in H.
+  assert (Hin : In (N.of_nat (S i)) (seqs_upto (length gs))) by (apply seqs_upto_in; lia).
+  specialize (H _ Hin).
+  apply cut_ok_cond in H. rewrite (from_seq_groups gs 1) in H by (assumption || lia).
+  replace (N.to_nat (N.of_nat (S i) - 1)) with i in H by lia. exact H.
+Qed.
+
+Lemma fetch_groups : forall p gs from, pwf p gs -> gcuts gs -> 1 <= from ->
+  (nlen gs < from /\ fetch p from = FOk []) \/
+  (from <= nlen gs /\ exists n, (1 <= n)%nat /\ (N.to_nat from - 1 + n <= length gs)%nat /\
+     fetch p from = FOk (concat (seg (N.to_nat from - 1) n gs))).
+Proof.
+  intros p gs from W GC Hf. unfold fetch. rewrite (cur_live _ _ W).
+  destruct (N.ltb_spec (nlen gs) from) as [L|L].
+  - left. split; [exact L|]. rewrite orb_true_r. reflexivity.
+  - right. split; [exact L|].
+    replace (nlen gs =? 0) with false by (symmetry; apply N.eqb_neq; lia). cbn [orb].
+    rewrite (pw_live _ _ W), (pw_log _ _ W).
+    rewrite (from_seq_groups gs 1) by (apply (pw_gwf _ _ W) || lia).
+    set (i := N.to_nat (from - 1)).
+    assert (Hi : (i < length gs)%nat) by (unfold nlen in L; lia).
+    destruct (firstn_groups (skipn i gs) (1 + nlen (firstn i gs)) MaxFetch) as (n & Hn & En).
+    + apply gwf_skipn. exact (pw_gwf _ _ W).
+    + unfold MaxFetch. lia.
+    + apply GC. exact Hi.
+    + intros E. apply (f_equal (@length group)) in E. rewrite skipn_length in E. cbn in E. lia.
+    + rewrite skipn_length in Hn. exists n. replace (N.to_nat from - 1)%nat with i by lia.
+      split; [lia|]. split; [lia|]. rewrite En. reflexivity.
+Qed.
+
+(* ---------- the invariant of a replica against a live primary ---------- *)
+Definition is_push (m : msg) : Prop := m = MPush.
+Definition ei (r : rstate) : nat := (N.to_nat (r_exp r) - 1)%nat.   (* groups applied *)
+
+Inductive inbox_ok (gs : list group) (r : rstate) : list msg -> Prop :=
+| IB_push : forall ib, Forall is_push ib -> (ib <> [] -> r_start r < nlen gs) -> inbox_ok gs r ib
+| IB_init : forall es n rest, es = concat (seg (ei r) n gs) ->
+    (1 <= n)%nat -> (ei r + n <= length gs)%nat -> r_start r = r_exp r ->
+    Forall is_push rest -> (rest <> [] -> r_start r < nlen gs) ->
+    inbox_ok gs r (MPlain es :: rest).
+
+Record rcore (gs : list group) (r : rstate) : Prop := mkRcore {
+  ri_exp : 1 <= r_exp r <= nlen gs + 1;
+  ri_store : exists old, r_store r = old ++ concat (firstn (ei r) gs) /\ incl old (concat gs);
+  ri_app : (r_gseq r = r_exp r /\ r_gapp r = []) \/
+           (r_gseq r + 1 = r_exp r /\ 2 <= r_exp r /\ r_gapp r = nth (ei r - 1) gs [])
+}.
+
+Definition rmode_ok (gs : list group) (r : rstate) : Prop :=
+  match r_mode r with
+  | RStreaming => 1 <= r_start r <= r_exp r /\ r_link r = true /\ inbox_ok gs r (r_inbox r)
+  | _ => r_inbox r = []
+  end.
+
+Definition rinv (gs : list group) (r : rstate) : Prop := rcore gs r /\ rmode_ok gs r.
+
+(* a group of a well-formed list *)
+Lemma gwf_nth : forall gs s i, gwf s gs -> (i < length gs)%nat ->
+  nth i gs [] <> [] /\ const_seq (s + N.of_nat i) (nth i gs []).
+Proof.
+  induction gs as [|g gs IH]; intros s i W Hi; [cbn in Hi; lia|].
+  destruct W as (Hg & Cg & W). destruct i as [|i].
+  - cbn [nth]. rewrite N.add_0_r. split; assumption.
+  - cbn [nth length] in *. destruct (IH (s + 1) i W ltac:(lia)) as [A B]. split; [exact A|].
+    replace (s + N.of_nat (S i)) with (s + 1 + N.of_nat i) by lia. exact B.
+Qed.
+
+Lemma firstn_last_nth : forall (l : list group) k, (1 <= k <= length l)%nat ->
+  firstn k l = firstn (k - 1) l ++ [nth (k - 1) l []].
+Proof.
+  induction l as [|x l IH]; intros k H; [cbn in H; lia|].
+  destruct k as [|k]; [lia|]. destruct k as [|k'].
+  - reflexivity.
+  - cbn [firstn]. replace (S (S k') - 1)%nat with (S k') by lia. cbn [firstn nth app]. f_equal.
+    cbn [length] in H. specialize (IH (S k') ltac:(lia)).
+    replace (S k' - 1)%nat with k' in IH by lia. exact IH.
+Qed.
+
+(* the applier step of the model on a response that is the segment [i, i+n) of the log,
+   for a replica that has applied the first ei groups, i <= ei *)
+Lemma apply_segment : forall gs r i n,
+  gwf 1 gs -> rcore gs r -> (1 <= n)%nat -> (i + n <= length gs)%nat -> (i <= ei r)%nat ->
+  let k := Nat.min n (ei r - i) in
+  apply_entries r (concat (seg i n gs)) = AOk (applied_state r (seg (i + k) (n - k) gs)).
+Proof.
+  intros gs r i n W I Hn Hlen Hi k.
+  destruct I as [[E1 E2] _ IA].
+  assert (Eei : N.of_nat (ei r) + 1 = r_exp r) by (unfold ei; lia).
+  rewrite (seg_split i n k gs) by (unfold k; lia).
+  assert (Lold : length (seg i k gs) = k) by (apply seg_length; unfold k; lia).
+  apply (apply_entries_groups r (1 + N.of_nat i)).
+  - rewrite <- seg_split by (unfold k; lia). intros E. apply (f_equal (@length group)) in E.
+    rewrite seg_length in E by exact Hlen. cbn in E. lia.
+  - lia.
+  - apply gwf_seg; [exact W|lia].
+  - unfold nlen. rewrite Lold. unfold k. lia.
+  - destruct (Nat.eq_dec (n - k) 0) as [Z|NZ].
+    + rewrite Z. unfold seg. cbn [firstn]. exact I.
+    + assert (Ek : (i + k = ei r)%nat) by (unfold k in *; lia).
+      rewrite Ek. replace (r_exp r) with (1 + N.of_nat (ei r)) by lia.
+      apply gwf_seg; [exact W|lia].
+  - intros Hne. unfold nlen. rewrite Lold.
+    assert ((n - k <> 0)%nat).
+    { intros Z. apply Hne. rewrite Z. reflexivity. }
+    unfold k in *. lia.
+  - destruct IA as [A|(G & G2 & GA)]; [left; exact A|right].
+    assert (Hlt : (ei r - 1 < length gs)%nat) by (unfold ei, nlen in *; lia).
+    destruct (gwf_nth gs 1 (ei r - 1) W Hlt) as [Nn Cn].
+    split; [exact G|]. split; [rewrite GA; exact Nn|]. split.
+    + rewrite GA. replace (r_gseq r) with (1 + N.of_nat (ei r - 1)) by (unfold ei in *; lia). exact Cn.
+    + unfold nlen. rewrite Lold. intros Ea Hne.
+      assert (Ek : (i + k = ei r)%nat) by lia.
+      assert (Hk : (1 <= k)%nat).
+      { destruct k; [|lia]. exfalso. apply Hne. reflexivity. }
+      exists (seg i (k - 1) gs). rewrite GA.
+      unfold seg. rewrite (firstn_last_nth (skipn i gs) k) by (rewrite skipn_length; lia).
+      f_equal. f_equal. rewrite nth_skipn'. f_equal. lia.
+Qed.
+
+Lemma seg_ne : forall i n gs, (1 <= n)%nat -> (i + n <= length gs)%nat -> seg i n gs <> [].
+Proof.
+  intros i n gs Hn L E. apply (f_equal (@length group)) in E. rewrite seg_length in E by exact L.
+  cbn in E. lia.
+Qed.
+
+Lemma concat_seg_cons : forall gs i n, gwf 1 gs -> (1 <= n)%nat -> (i + n <= length gs)%nat ->
+  exists e0 tl, concat (seg i n gs) = e0 :: tl.
+Proof.
+  intros gs i n W Hn L.
+  destruct (groups_cons (seg i n gs) (1 + N.of_nat i)) as (e0 & tl & E & _).
+  - apply gwf_seg; [exact W|lia].
+  - apply seg_ne; assumption.
+  - exists e0, tl. exact E.
+Qed.
+
+Lemma core_applied : forall gs r m, gwf 1 gs -> rcore gs r -> (ei r + m <= length gs)%nat ->
+  rcore gs (applied_state r (seg (ei r) m gs)) /\
+  ei (applied_state r (seg (ei r) m gs)) = (ei r + m)%nat.
+Proof.
+  intros gs r m W [[E1 E2] (old & ES & EI) IA] L.
+  assert (Ln : nlen (seg (ei r) m gs) = N.of_nat m) by (unfold nlen; rewrite seg_length by exact L; reflexivity).
+  assert (Eexp : r_exp (applied_state r (seg (ei r) m gs)) = r_exp r + N.of_nat m).
+  { unfold applied_state. cbn [r_exp]. rewrite Ln. reflexivity. }
+  assert (Eei : ei (applied_state r (seg (ei r) m gs)) = (ei r + m)%nat).
+  { unfold ei at 1. rewrite Eexp. unfold ei. lia. }
+  split; [|exact Eei]. constructor.
+  - rewrite Eexp. unfold ei, nlen in *. lia.
+  - exists old. rewrite Eei. split; [|exact EI]. unfold applied_state. cbn [r_store].
+    rewrite ES, <- app_assoc, <- concat_app, firstn_seg. reflexivity.
+  - rewrite Eei. destruct m as [|m'].
+    + unfold seg, applied_state. cbn [firstn r_gseq r_gapp r_exp nlen length].
+      unfold nlen. cbn [length]. replace (r_exp r + N.of_nat 0) with (r_exp r) by lia.
+      rewrite Nat.add_0_r. exact IA.
+    + right. unfold applied_state. cbn [r_gseq r_gapp r_exp].
+      destruct (seg (ei r) (S m') gs) as [|s0 sl] eqn:Es.
+      { exfalso. eapply seg_ne; [|exact L|exact Es]. lia. }
+      rewrite Ln. split; [lia|]. split; [lia|].
+      rewrite <- Es. rewrite seg_last by (lia || exact L). f_equal.
+Qed.
+
+(* fields the core invariant does not read *)
+Lemma rcore_ext : forall gs r r', r_exp r' = r_exp r -> r_store r' = r_store r ->
+  r_gseq r' = r_gseq r -> r_gapp r' = r_gapp r -> rcore gs r -> rcore gs r'.
+Proof.
+  intros gs r r' A B C D [H1 H2 H3].
+  assert (E : ei r' = ei r) by (unfold ei; rewrite A; reflexivity).
+  constructor; rewrite ?E, ?A, ?B, ?C, ?D; assumption.
+Qed.
+
+Definition dist (gs : list group) (r : rstate) : nat := (length gs - ei r)%nat.
+
+Definition mu (p : pstate) (gs : list group) (r : rstate) : nat :=
+  if idle p r then O else
+  match r_mode r with
+  | RDown => O
+  | RConnecting => 2 * dist gs r + 2
+  | RStreaming => match r_inbox r with MPlain _ :: _ => 2 * dist gs r + 1 | _ => 2 * dist gs r + 3 end
+  end.
+
+Definition stuck_last (gs : list group) (r : rstate) : Prop :=
+  r_mode r = RStreaming /\ r_inbox r = [] /\ r_start r = nlen gs /\ r_exp r = nlen gs.
+
+Definition step_ok (p : pstate) (gs : list group) (c : choice) (r r' : rstate) : Prop :=
+  rinv gs r' /\ ~ stuck_last gs r' /\ (mu p gs r' <= mu p gs r)%nat /\
+  (is_bad c = false -> (0 < mu p gs r)%nat -> (mu p gs r' < mu p gs r)%nat) /\
+  r_link r' = r_link r /\ (r_mode r <> RDown -> r_mode r' <> RDown).
+
+Lemma step_ok_same : forall p gs c r, rinv gs r -> ~ stuck_last gs r -> tick c p r = r ->
+  idle p r = true -> step_ok p gs c r r.
+Proof.
+  intros p gs c r I NS _ Hid. unfold step_ok, mu. rewrite Hid.
+  split; [exact I|]. split; [exact NS|]. split; [lia|]. split; [intros _ H; lia|].
+  split; [reflexivity|]. intros H; exact H.
+Qed.
+
+Lemma rinv_disconnect : forall gs r, rcore gs r -> rinv gs (disconnect r).
+Proof.
+  intros gs r C. split; [eapply rcore_ext; [..|exact C]; reflexivity|]. reflexivity.
+Qed.
+
+Lemma mu_connecting : forall p gs r, r_link r = true ->
+  mu p gs (disconnect r) = (2 * dist gs r + 2)%nat.
+Proof.
+  intros p gs r L. unfold mu, idle, disconnect. cbn [r_mode r_link]. rewrite L. reflexivity.
+Qed.
+
+(* a disconnect after the replica made (possibly no) progress *)
+Lemma step_ok_disconnect : forall p gs c r r2 b,
+  rinv gs r -> r_mode r = RStreaming -> idle p r = false ->
+  rcore gs r2 -> r_link r2 = r_link r -> (dist gs r2 <= dist gs r)%nat ->
+  (mu p gs r = 2 * dist gs r + 3 \/ (mu p gs r = 2 * dist gs r + 1 /\ dist gs r2 < dist gs r))%nat ->
+  b = disconnect r2 -> step_ok p gs c r b.
+Proof.
+  intros p gs c r r2 b I M Hid C2 L2 D Hmu ->.
+  assert (LK : r_link r = true).
+  { destruct I as [_ IM]. unfold rmode_ok in IM. rewrite M in IM. tauto. }
+  unfold step_ok. split; [apply rinv_disconnect; exact C2|].
+  split; [intros (Hm & _); discriminate|].
+  rewrite mu_connecting by (rewrite L2; exact LK).
+  assert (Dd : dist gs (disconnect r2) = dist gs r2) by reflexivity.
+  split; [lia|]. split; [intros; lia|]. split; [exact L2|]. intros _. discriminate.
+Qed.
+
+Lemma tick_step : forall p gs r c, pwf p gs -> gcuts gs -> rinv gs r -> ~ stuck_last gs r ->
+  step_ok p gs c r (tick c p r).
+Proof.
+  intros p gs r c W GC I NS. pose proof (pw_gwf _ _ W) as GW.
+  pose proof (cur_live _ _ W) as CUR.
+  destruct I as [C IM]. pose proof (conj C IM : rinv gs r) as I.
+  assert (Hei : (ei r <= length gs)%nat) by (pose proof (ri_exp _ _ C); unfold ei, nlen in *; lia).
+  unfold rmode_ok in IM. unfold tick.
+  destruct (r_mode r) eqn:M.
+  - (* down *)
+    apply step_ok_same; try assumption; unfold tick, idle; rewrite M; reflexivity.
+  - (* connecting *)
+    destruct (r_link r) eqn:LK.
+    2:{ apply step_ok_same; try assumption; unfold tick, idle; rewrite M, LK; reflexivity. }
+    assert (MU : mu p gs r = (2 * dist gs r + 2)%nat).
+    { unfold mu, idle. rewrite M, LK. reflexivity. }
+    destruct C as [[E1 E2] CS CA]. pose proof (mkRcore gs r (conj E1 E2) CS CA) as C.
+    unfold connect.
+    destruct (fetch_groups p gs (r_exp r) W GC E1) as [[L F]|(L & n & Hn & Hl & F)]; rewrite F.
+    + (* nothing to send: the replica is up to date *)
+      set (r' := mkR RStreaming (r_link r) (r_exp r) [] (r_exp r) (r_gseq r) (r_gapp r) (r_store r)).
+      assert (Hid : idle p r' = true).
+      { unfold idle, poll, r'. cbn [r_mode r_inbox r_start]. rewrite CUR.
+        replace (r_exp r <? nlen gs) with false by (symmetry; apply N.ltb_ge; lia). reflexivity. }
+      unfold step_ok. split.
+      { split; [eapply rcore_ext; [..|exact C]; reflexivity|].
+        unfold rmode_ok, r'. cbn [r_mode r_start r_exp r_link r_inbox]. split; [lia|]. split; [exact LK|].
+        apply IB_push; [constructor|congruence]. }
+      split; [intros (_ & _ & S1 & S2); unfold r' in *; cbn [r_start r_exp] in *; lia|].
+      assert (MU' : mu p gs r' = 0%nat) by (unfold mu; rewrite Hid; reflexivity).
+      rewrite MU, MU'.
+      split; [lia|]. split; [intros; lia|]. split; [reflexivity|]. intros _. discriminate.
+    + (* the initial entries *)
+      assert (En : (N.to_nat (r_exp r) - 1)%nat = ei r) by reflexivity. rewrite En in *.
+      destruct (concat_seg_cons gs (ei r) n GW Hn Hl) as (e0 & tl & Ees). rewrite Ees.
+      set (r' := mkR RStreaming (r_link r) (r_exp r) [MPlain (e0 :: tl)] (r_exp r) (r_gseq r) (r_gapp r) (r_store r)).
+      unfold step_ok. split.
+      { split; [eapply rcore_ext; [..|exact C]; reflexivity|].
+        unfold rmode_ok, r'. cbn [r_mode r_start r_exp r_link r_inbox]. split; [lia|]. split; [exact LK|].
+        apply (IB_init gs _ _ n); try assumption; try reflexivity; [rewrite <- Ees; reflexivity|constructor|congruence]. }
+      split; [intros (_ & S0 & _); discriminate|].
+      assert (MU' : mu p gs r' = (2 * dist gs r + 1)%nat) by reflexivity.
+      rewrite MU, MU'. split; [lia|]. split; [intros; lia|]. split; [reflexivity|]. intros _. discriminate.
+  - (* streaming *)
+    destruct IM as (HS & LK & IB).
+    inversion IB as [ib FP HP Eib|es n rest Ees Hn Hl ES FP HP Eib].
+    + destruct (r_inbox r) as [|m0 rest] eqn:EI.
+      * (* empty inbox: the poll *)
+        unfold poll. rewrite CUR.
+        destruct (N.ltb_spec (r_start r) (nlen gs)) as [LT|GE].
+        2:{ apply step_ok_same; try assumption.
+            - unfold tick. rewrite M, EI. unfold poll. rewrite CUR.
+              replace (r_start r <? nlen gs) with false by (symmetry; apply N.ltb_ge; lia). reflexivity.
+            - unfold idle, poll. rewrite M, EI, CUR.
+              replace (r_start r <? nlen gs) with false by (symmetry; apply N.ltb_ge; lia). reflexivity. }
+        destruct (fetch_groups p gs (r_start r + 1) W GC ltac:(lia)) as [[L F]|(L & n & Hn & Hl & F)]; [lia|].
+        rewrite F.
+        replace (N.to_nat (r_start r + 1) - 1)%nat with (N.to_nat (r_start r)) in * by lia.
+        set (i := N.to_nat (r_start r)) in *.
+        destruct (concat_seg_cons gs i n GW Hn Hl) as (e0 & tl & Ees). rewrite Ees.
+        assert (Hid : idle p r = false).
+        { unfold idle, poll. rewrite M, EI, CUR. apply N.ltb_lt in LT. rewrite LT, F, Ees. reflexivity. }
+        assert (MU : mu p gs r = (2 * dist gs r + 3)%nat).
+        { unfold mu. rewrite Hid, M, EI. reflexivity. }
+        destruct (c_lose c) eqn:CL.
+        { (* swallowed *)
+          unfold step_ok. split; [exact I|]. split; [exact NS|]. split; [lia|].
+          split; [unfold is_bad; rewrite CL; discriminate|]. split; [reflexivity|]. intros _. rewrite M. discriminate. }
+        unfold deliver. rewrite <- Ees.
+        destruct (Nat.le_gt_cases i (ei r)) as [Li|Gi].
+        -- (* no gap *)
+           rewrite (apply_segment gs r i n GW C Hn Hl Li).
+           set (k := Nat.min n (ei r - i)).
+           assert (Eseg : seg (i + k) (n - k) gs = seg (ei r) (n - k) gs).
+           { destruct (Nat.eq_dec (n - k) 0) as [Z|NZ]; [rewrite Z; reflexivity|].
+             f_equal. unfold k in *. lia. }
+           rewrite Eseg.
+           assert (Lm : (ei r + (n - k) <= length gs)%nat) by (unfold k; lia).
+           destruct (core_applied gs r (n - k) GW C Lm) as [C2 E2].
+           set (r2 := applied_state r (seg (ei r) (n - k) gs)) in *.
+           assert (D2 : (dist gs r2 <= dist gs r)%nat) by (unfold dist; lia).
+           destruct (c_stay c) eqn:CSY.
+           ++ (* the session goes on *)
+              assert (Hid2 : idle p r2 = false).
+              { unfold idle, poll, r2, applied_state. cbn [r_mode r_inbox r_start]. rewrite M, EI, CUR.
+                apply N.ltb_lt in LT. rewrite LT, F, Ees. reflexivity. }
+              unfold step_ok. split.
+              { split; [exact C2|]. unfold rmode_ok, r2, applied_state. cbn [r_mode r_start r_exp r_link r_inbox].
+                rewrite M, EI. split; [lia|]. split; [exact LK|]. apply IB_push; [constructor|congruence]. }
+              split; [intros (_ & _ & S1 & _); unfold r2, applied_state in S1; cbn [r_start] in S1; lia|].
+              assert (MU2 : mu p gs r2 = (2 * dist gs r2 + 3)%nat).
+              { unfold mu. rewrite Hid2. unfold r2, applied_state. cbn [r_mode r_inbox]. rewrite M, EI. reflexivity. }
+              rewrite MU, MU2. split; [lia|].
+              split; [unfold is_bad; rewrite CSY, orb_true_r; discriminate|].
+              split; [reflexivity|]. intros _. unfold r2, applied_state. cbn [r_mode]. rewrite M. discriminate.
+           ++ eapply step_ok_disconnect; try eassumption; try reflexivity. left. exact MU.
+        -- (* gap: NACK, reconnect *)
+           rewrite (apply_entries_gap r (seg i n gs) (1 + N.of_nat i)).
+           ++ eapply (step_ok_disconnect p gs c r r); try eassumption; try reflexivity. left; exact MU.
+           ++ apply gwf_seg; [exact GW|lia].
+           ++ apply seg_ne; assumption.
+           ++ unfold ei in Gi. lia.
+      * (* a pushed batch at the head *)
+        assert (m0 = MPush) by exact (Forall_inv FP). subst m0.
+        pose proof (Forall_inv_tail FP) as FR.
+        assert (LT : r_start r < nlen gs) by (apply HP; discriminate).
+        assert (Hid : idle p r = false) by (unfold idle; rewrite M, EI; reflexivity).
+        assert (MU : mu p gs r = (2 * dist gs r + 3)%nat).
+        { unfold mu. rewrite Hid, M, EI. reflexivity. }
+        destruct (c_lose c) eqn:CL.
+        -- set (r2 := set_inbox r rest).
+           assert (Hid2 : idle p r2 = false).
+           { unfold idle, r2, set_inbox. cbn [r_mode r_inbox]. rewrite M.
+             destruct rest; [|reflexivity]. unfold poll. cbn [r_start]. rewrite CUR.
+             apply N.ltb_lt in LT. rewrite LT.
+             destruct (fetch_groups p gs (r_start r + 1) W GC ltac:(lia)) as [[L F]|(L & n & Hn & Hl & F)]; [lia|].
+             rewrite F. destruct (concat_seg_cons gs _ n GW Hn Hl) as (e0 & tl & Ees). rewrite Ees. reflexivity. }
+           unfold step_ok. split.
+           { split; [eapply rcore_ext; [..|exact C]; reflexivity|].
+             unfold rmode_ok, r2, set_inbox. cbn [r_mode r_start r_exp r_link r_inbox]. rewrite M.
+             split; [exact HS|]. split; [exact LK|]. apply IB_push; [exact FR|intros _; exact LT]. }
+           split; [intros (_ & _ & S1 & _); unfold r2, set_inbox in S1; cbn [r_start] in S1; lia|].
+           assert (MU2 : mu p gs r2 = (2 * dist gs r + 3)%nat).
+           { unfold mu. rewrite Hid2. unfold r2, set_inbox. cbn [r_mode r_inbox]. rewrite M.
+             destruct rest as [|m1 rest']; [reflexivity|].
+             assert (m1 = MPush) by exact (Forall_inv FR). subst m1. reflexivity. }
+           rewrite MU, MU2. split; [lia|].
+           split; [unfold is_bad; rewrite CL; discriminate|]. split; [reflexivity|].
+           intros _. unfold r2, set_inbox. cbn [r_mode]. rewrite M. discriminate.
+        -- unfold deliver.
+           eapply (step_ok_disconnect p gs c r (set_inbox r rest)); try eassumption; try reflexivity.
+           ++ eapply rcore_ext; [..|exact C]; reflexivity.
+           ++ left. exact MU.
+    + (* the initial entries at the head *)
+      subst es.
+      assert (Hid : idle p r = false) by (unfold idle; rewrite M, <- Eib; reflexivity).
+      assert (MU : mu p gs r = (2 * dist gs r + 1)%nat).
+      { unfold mu. rewrite Hid, M, <- Eib. reflexivity. }
+      set (r1 := set_inbox r rest).
+      assert (C1 : rcore gs r1) by (eapply rcore_ext; [..|exact C]; reflexivity).
+      assert (E1 : ei r1 = ei r) by reflexivity.
+      unfold deliver. fold r1. rewrite <- E1.
+      rewrite (apply_segment gs r1 (ei r1) n GW C1 Hn ltac:(lia) ltac:(lia)).
+      rewrite Nat.sub_diag, Nat.min_0_r, Nat.add_0_r, Nat.sub_0_r.
+      destruct (core_applied gs r1 n GW C1 ltac:(lia)) as [C2 E2].
+      set (r2 := applied_state r1 (seg (ei r1) n gs)) in *.
+      assert (D2 : (dist gs r2 < dist gs r)%nat) by (unfold dist; lia).
+      destruct (c_stay c) eqn:CSY.
+      * unfold step_ok. split.
+        { split; [exact C2|]. unfold rmode_ok, r2, applied_state, r1, set_inbox.
+          cbn [r_mode r_start r_exp r_link r_inbox]. rewrite M.
+          split; [lia|]. split; [exact LK|]. apply IB_push; [exact FP|exact HP]. }
+        split.
+        { intros (_ & _ & S1 & S2).
+          assert (A1 : r_start r2 = r_start r) by reflexivity.
+          assert (A2 : ei r2 = (ei r + n)%nat) by (rewrite E2, E1; reflexivity).
+          rewrite A1 in S1. unfold ei in A2. lia. }
+        assert (MU2 : (mu p gs r2 <= 2 * dist gs r2 + 3)%nat).
+        { unfold mu. destruct (idle p r2); [lia|]. unfold r2, applied_state, r1, set_inbox.
+          cbn [r_mode r_inbox]. rewrite M. destruct rest as [|m1 rest']; [lia|].
+          assert (m1 = MPush) by exact (Forall_inv FP). subst m1. lia. }
+        rewrite MU. split; [lia|].
+        split; [unfold is_bad; rewrite CSY, orb_true_r; discriminate|].
+        split; [reflexivity|]. intros _. unfold r2, applied_state. cbn [r_mode]. unfold r1, set_inbox. cbn [r_mode]. rewrite M. discriminate.
+      * eapply (step_ok_disconnect p gs c r r2); try eassumption; try reflexivity; [lia|].
+        right. split; [exact MU|exact D2].
+Qed.
